@@ -13,6 +13,7 @@ RULE = ("(A) synthetic table-driven registries, exhaustive at small scope: text 
         "scope (text<=40, <=14 hits nested on purpose, k in -2..12, empty-value and zero-width hits, self-reproducing "
         "decoder); (C) real hit streams of the default registry recorded by the registry tap and replayed into the model. "
         "Oracle: Multidecoder(decoders=registry).scan(text,k) == independent interval-nesting model, node for node. "
+        "'synth-wide' shard: synthetic registries with 300..25000 one-byte decodable fragments in one text, each three decodings deep, k = 1..5 (up to 75001 searches per scan: per-scan / per-scanner budgets); random registries list the same decoder object twice 12 % of the time. "
         "distinct_nontrivial = distinct configurations whose result has >=2 nodes below the root.")
 ASSUMPTIONS = ["conditioned on in-bounds hits: streams with a malformed decoder snapshot are excluded and counted",
                "the model resolves 'innermost still-open context' by end offset only, as the engine does (documented reading)"]
